@@ -35,7 +35,21 @@ Parameter / regime coverage added by the audit of the signatures (every case fam
   with each other ('cross', another list of the very same cores for accuracy); every standard clause, number operands of
   every kind, accuracy, outer, interface, and expression trees whose leaves are such tensors (`alias=True`).  A routine
   that copies / caches / rescales "by object" (deepcopy memo, id-keyed caches, in-place scaling of a shared core) shows here.
-Not covered on purpose: `get_and_grad(check_phi=True)` (documented "should be False"; raises NameError on the pinned
+* other INPUT FORMS of the core list (`C01.forms.std`, which re-runs the reference checks of every standard clause, of
+  accuracy / outer / interface and of expression trees; `form=` of `_tt_pair`): cores of dtype float32 / int64 / int32,
+  dtypes mixed between the cores (float64 + int64 with non-integer values in the float cores, float64 + float32), read-only
+  cores, read-only non-contiguous views, the core list as a tuple (also tuple + float32 + read-only).  The reference is
+  the float64 image of what is passed; float32 cores are compared in float32 accuracy where the unchanged library computes
+  in float32 (exact == below 2^24 for integer values).  `C01.forms.mixed_operands`: binary operations of such a tensor with a
+  float64 Gaussian tensor / non-integer numbers in float64 accuracy (a result allocated "like the first operand" shows),
+  keyword calls with the documented names, outer_many of a tuple, a bool number operand.  Optional arguments passed
+  positionally: interface through `gen.call_form` (`call=` of `C01.interface.vectors`: pos / mix:2 / mix:3 / min / kwmin),
+  mean(Y, None, False), mul_scalar(Y1, Y2, True), norm(Y, True), accuracy_on_data(Y, I, y, e); get_and_grad with the index
+  as tuple / int32 array / list of numpy ints.
+  DOUBTFUL, disabled (`C01.forms.int_first_core_inplace`, replay only): a first core of INTEGER dtype makes sub(Y, X),
+  sub(number, X), mul(float, X), accuracy(Y, X) raise (in-place scaling of the copied first core).
+Not covered on purpose: numpy.int64 / numpy.float32 / 0-d array NUMBER operands (the docstrings say "int, float"; `_is_num`
+accepts Python int / float and their subclasses only), `get_and_grad(check_phi=True)` (documented "should be False"; raises NameError on the pinned
 tree), the private `_to_item` flag, `getter` (needs numba, deprecated).
 
 Equality regime: integer-valued cores in [-3,3] are compared with the exact Python-integer oracle by `==`
@@ -61,12 +75,29 @@ BOUNDS = ('d in {2,3,4} (thorough: 5), mode sizes 1..4 incl. all-ones and leadin
           'mode sizes up to 1030 (thorough 2048); stabilised pair results with per-core 2^-80 .. 2^240; number operands '
           '1e-150 .. 1e20 and numpy.float64; index dtypes int32 / uint16 / views; tensors with repeated core objects '
           '(12 quick / 18 thorough shape x rank configurations x {all, first, rest, cross} sharing patterns, every clause; '
-          '270 / 1430 expression trees with such leaves)')
+          '270 / 1430 expression trees with such leaves); input forms of the core list: 11 forms (float32 / int64 / int32 / '
+          'mixed dtypes / read-only / views / tuple) x 6 (thorough 10) shape x rank configurations through every standard '
+          'clause, 160 / 1360 expression trees with leaves in such forms, float64-accuracy binary operations with a Gaussian '
+          'partner; interface in 5 positional / mixed call forms')
 
 EPS = np.finfo(float).eps
 LIM = 2 ** 53
 ORDERS = ('C', 'F', 'V')
 SCALES = (1e-2, 1e2, 1e-20, 1e20, 2.0 ** -10, 1e-5)
+
+
+# ----------------------------------------------------------------------------- input forms of the core list
+
+EPS32 = float(np.finfo(np.float32).eps)
+# comparison regime of `_agree`: (rounding unit, limit below which integer arithmetic is exact).  Only `forms_std` changes it
+# (and restores it): tensors with float32 cores are, on the unchanged library, evaluated in float32 by get / full / mul /
+# mul_scalar, so their regime is (eps32, 2^24); every other form keeps (eps, 2^53).
+_CTX = {'eps': EPS, 'lim': LIM, 'form': None}
+FORMS = ('f32', 'i64', 'i32', 'mix_fi', 'mix_if', 'mix_f32a', 'mix_f32b', 'ro', 'ro_view', 'tuple', 'tuple_f32_ro')
+INT_FIRST = ('i64', 'i32', 'mix_if')            # forms whose FIRST core has an integer dtype
+
+
+_as_form, _image = gen.tt_form1, gen.tt_image1          # (shared with the other suites)
 
 
 # ----------------------------------------------------------------------------- oracles
@@ -101,7 +132,7 @@ def _agree(got, D, B, c=64.0, what=''):
     shp = np.shape(D)
     if got.shape != shp:
         return f'{what}: shape {got.shape} != {shp}'
-    if _exact(D) and _maxabs(B) < LIM:
+    if _exact(D) and _maxabs(B) < _CTX['lim']:
         Df = np.asarray(D, dtype=object).astype(float)
         if np.array_equal(got, Df):
             return None
@@ -112,9 +143,9 @@ def _agree(got, D, B, c=64.0, what=''):
         np.asarray(np.asarray(B, dtype=object).astype(float) if _exact(B) else B, dtype=float)
     if not np.all(np.isfinite(got)):
         return f'{what}: non-finite result'
-    if gen.close(got, Df, Bf, c):
+    if gen.close(got, Df, Bf, c * (_CTX['eps'] / EPS)):
         return None
-    ratio = np.max(np.abs(got - Df) / (EPS * Bf + 1e-300))
+    ratio = np.max(np.abs(got - Df) / (_CTX['eps'] * Bf + 1e-300))
     return f'{what}: |got-ref| = {ratio:.3g} eps*scale > {c} eps*scale'
 
 
@@ -149,10 +180,18 @@ def _weights(n, seed, kind, extra=0):
     return [[float(x) for x in g.uniform(-1, 1, size=k + extra)] for k in n]
 
 
-def _tt_pair(n, r, seed, kind, order, scale=1.0, alias=None):
-    """(Y, D, B).  scale != 1 multiplies EVERY core (total factor scale^d); the reference is then the float chain.
+def _tt_pair(n, r, seed, kind, order, scale=1.0, alias=None, form=None):
+    """(Y, D, B).  form: Y is handed out in the input form `form` (`_as_form`; D, B are those of its float64 image).  scale != 1 multiplies EVERY core (total factor scale^d); the reference is then the float chain.
     alias ('all' | 'first' | 'rest' | 'cross'): the core LIST holds one array object at several positions
     (`gen.tt_aliased`; 'cross' = 'all' here, the sharing BETWEEN two operands is made by `_second`)."""
+    if form:
+        Y, D, B = _tt_pair(n, r, seed, kind, order, scale, alias)
+        if kind != 'int' or scale != 1.0:       # values that float32 holds exactly (the reference is their float64 image)
+            Y = [G.astype(np.float32).astype(float) for G in Y]
+            if form in ('mix_fi', 'mix_if'):    # the cores that get the integer dtype hold integers, the others do not
+                Y = [np.rint(2 * G) if k % 2 == (form == 'mix_fi') else G for k, G in enumerate(Y)]
+            D, B = gen.dense(Y), gen.absdense(Y)
+        return _as_form(Y, form), D, B
     if alias:
         Y = gen.tt_aliased(n, r, seed, kind, scale=float(scale), order=order, which='all' if alias == 'cross' else alias)
         if scale != 1.0:
@@ -193,11 +232,11 @@ def _other_ranks(n, r, seed):
 # ----------------------------------------------------------------------------- element access, export
 
 @clause('C01.get.all_indices', funcs=('act_one.get', 'act_one.get_many'))
-def get_all(n, r, seed, kind, order, scale=1.0, alias=None):
+def get_all(n, r, seed, kind, order, scale=1.0, alias=None, form=None):
     """get (single index as list / array, 2-D batch, list of lists), get_many (batch, batch of one, empty
     batch; index arrays of dtype int64 / int32 / uint16, non-contiguous / F-ordered) return val(Y, i) for
     every multi-index i."""
-    Y, D, B = _tt_pair(n, r, seed, kind, order, scale, alias)
+    Y, D, B = _tt_pair(n, r, seed, kind, order, scale, alias, form)
     snap = gen.snapshot(Y)
     I = gen.all_indices(n)
     want, bnd = D[tuple(I.T)], B[tuple(I.T)]
@@ -244,9 +283,9 @@ def get_all(n, r, seed, kind, order, scale=1.0, alias=None):
 
 
 @clause('C01.full.dense', funcs=('transformation.full',))
-def full_dense(n, r, seed, kind, order, scale=1.0, alias=None):
+def full_dense(n, r, seed, kind, order, scale=1.0, alias=None, form=None):
     """full(Y) is the dense tensor of shape n_1 x ... x n_d (also when boundary modes have size 1)."""
-    Y, D, B = _tt_pair(n, r, seed, kind, order, scale, alias)
+    Y, D, B = _tt_pair(n, r, seed, kind, order, scale, alias, form)
     Z = teneva.full(Y)
     if not isinstance(Z, np.ndarray) or Z.shape != tuple(n):
         return FAIL(f'full has shape {getattr(Z, "shape", None)} for mode sizes {n}')
@@ -257,18 +296,20 @@ def full_dense(n, r, seed, kind, order, scale=1.0, alias=None):
 # ----------------------------------------------------------------------------- reductions
 
 @clause('C01.sum_mean.weights', funcs=('act_one.sum', 'act_one.mean'))
-def sum_mean(n, r, seed, kind, order, scale=1.0, alias=None):
+def sum_mean(n, r, seed, kind, order, scale=1.0, alias=None, form=None):
     """sum = total of all entries; mean = total / number of entries; mean(norm=False) = sum; mean(P) = weighted
     total with P as list of lists / list of arrays / one 2-D array (equal modes), also when P[k] is
     longer than the mode (first n_k used)."""
-    Y, D, B = _tt_pair(n, r, seed, kind, order, scale, alias)
+    Y, D, B = _tt_pair(n, r, seed, kind, order, scale, alias, form)
     tot, btot = D.sum(), B.sum()
-    msg = _agree(teneva.sum(Y), tot, btot, what='sum') or _agree(teneva.mean(Y, norm=False), tot, btot, what='mean(norm=False)')
+    msg = _agree(teneva.sum(Y), tot, btot, what='sum') or _agree(teneva.mean(Y, norm=False), tot, btot, what='mean(norm=False)') \
+        or _agree(teneva.mean(Y, None, False), tot, btot, what='mean(Y, None, False)') \
+        or _agree(teneva.mean(Y, None, np.bool_(False)), tot, btot, what='mean(Y, None, numpy.bool_(False))')
     if msg:
         return FAIL(msg)
     N = int(np.prod(n))
     got = teneva.mean(Y)
-    if all(k in (1, 2, 4) for k in n) and _exact(D) and btot < LIM:
+    if all(k in (1, 2, 4) for k in n) and _exact(D) and btot < _CTX['lim']:
         if float(got) != float(tot) / N:     # scaling by powers of two is exact
             return FAIL(f'mean (power-of-two modes): {got} != {tot}/{N}')
     else:
@@ -344,9 +385,9 @@ def many_modes(d, nk, seed):
 
 
 @clause('C01.mul_scalar_norm.dense', funcs=('act_two.mul_scalar', 'act_one.norm'))
-def dot_norm(n, r, seed, kind, order, scale=1.0, alias=None):
+def dot_norm(n, r, seed, kind, order, scale=1.0, alias=None, form=None):
     """mul_scalar(Y1, Y2) = sum of the element-wise product (unequal rank profiles), norm(Y)^2 = sum of squares."""
-    Y1, D1, B1 = _tt_pair(n, r, seed, kind, order, scale, alias)
+    Y1, D1, B1 = _tt_pair(n, r, seed, kind, order, scale, alias, form)
     Y2, D2, B2 = _second(Y1, n, r, seed, kind, ORDERS[(ORDERS.index(order) + 1) % 3], scale, alias)
     msg = _agree(teneva.mul_scalar(Y1, Y2), (D1 * D2).sum(), (B1 * B2).sum(), c=256, what='mul_scalar') \
         or _agree(teneva.mul_scalar(Y2, Y1), (D1 * D2).sum(), (B1 * B2).sum(), c=256, what='mul_scalar swapped')
@@ -362,7 +403,7 @@ def dot_norm(n, r, seed, kind, order, scale=1.0, alias=None):
             return FAIL(f'norm = {got}')
         if got == 0 and float(s2) > 0:
             return FAIL(f'norm = 0 for a tensor with sum of squares {float(s2)!r}')
-        if _exact(D) and b2 < LIM:
+        if _exact(D) and b2 < _CTX['lim']:
             if float(got) != math.sqrt(s2):
                 return FAIL(f'norm {got} != sqrt({s2}) (exact integer sum of squares)')
         else:
@@ -386,6 +427,8 @@ def dot_norm_stab(n, r, seed, kind, order, ex):
     out = teneva.mul_scalar(S1, S2, use_stab=True)
     if not isinstance(out, tuple) or len(out) != 2:
         return FAIL('mul_scalar(use_stab=True) does not return a pair')
+    if gen.snapshot(teneva.mul_scalar(S1, S2, True)) != gen.snapshot(out) or gen.snapshot(teneva.norm(S1, True)) != gen.snapshot(teneva.norm(S1, use_stab=True)):
+        return FAIL('mul_scalar / norm: use_stab passed positionally gives another result than by keyword')
     v, p = out
     if isinstance(p, bool) or not isinstance(p, (int, np.integer)) or np.ndim(v) != 0:
         return FAIL(f'mul_scalar(use_stab=True) = ({v!r}, {p!r}): exponent not an integer / value not a scalar')
@@ -412,10 +455,10 @@ def dot_norm_stab(n, r, seed, kind, order, ex):
 
 
 @clause('C01.accuracy.dense', funcs=('act_two.accuracy', 'data.accuracy_on_data'))
-def accuracy_dense(n, r, seed, kind, order, near, scale=1.0, alias=None):
+def accuracy_dense(n, r, seed, kind, order, near, scale=1.0, alias=None, form=None):
     """accuracy(Y1, Y2) = ||D1-D2|| / ||D2|| for TT and ndarray arguments; accuracy_on_data = relative
     residual on the data set, -1 without data, e_trunc path within the truncation accuracy."""
-    Y1, D1, B1 = _tt_pair(n, r, seed, kind, order, scale, alias)
+    Y1, D1, B1 = _tt_pair(n, r, seed, kind, order, scale, alias, form)
     if near == 'copy':              # alias: another LIST of the very same (repeated) core objects
         Y2 = [G.copy() for G in Y1] if not alias else list(Y1)
         D2, B2 = D1, B1
@@ -435,13 +478,14 @@ def accuracy_dense(n, r, seed, kind, order, near, scale=1.0, alias=None):
     got = teneva.accuracy(Y1, Y2)
     want = math.sqrt(float(S1) / float(S2))
     # got^2 * S2 must agree with S1 up to the rounding of the two scalar products
-    c = 1024 if not (_exact(D1) and T1 < LIM) else 64
-    tol = c * EPS * (T1 + T2 * float(S1) / float(S2)) + 64 * EPS * float(S1)
+    LIMc, EPSc = _CTX['lim'], _CTX['eps']
+    c = 1024 if not (_exact(D1) and T1 < LIMc) else 64
+    tol = c * EPSc * (T1 + T2 * float(S1) / float(S2)) + 64 * EPSc * float(S1)
     if not np.isfinite(got) or got < 0 or abs(float(got) ** 2 * float(S2) - float(S1)) > tol:
         return FAIL(f'accuracy {got} vs {want} (|got^2 S2 - S1| = {abs(float(got) ** 2 * float(S2) - float(S1)):.3e} > {tol:.3e})')
-    if near == 'copy' and _exact(D1) and T1 < LIM and got != 0:
+    if near == 'copy' and _exact(D1) and T1 < LIMc and got != 0:
         return FAIL(f'accuracy of an integer tensor with its copy is {got}, not 0')
-    if near == 'scaled' and _exact(D1) and T1 < LIM and abs(got - 0.5) > 8 * EPS:
+    if near == 'scaled' and _exact(D1) and T1 < LIMc and abs(got - 0.5) > 8 * EPSc:
         return FAIL(f'accuracy(Y, 2Y) = {got}, not 0.5')
     # ndarray arguments
     A1, A2 = _flt(np.asarray(D1, dtype=object).astype(float) if _exact(D1) else D1), \
@@ -464,11 +508,15 @@ def accuracy_dense(n, r, seed, kind, order, near, scale=1.0, alias=None):
         bd = float(np.sqrt(((B1 + B2)[tuple(I.T)].astype(float) ** 2).sum())) / ny
         for name, II, yy in (('arrays', I, y), ('lists', I.tolist(), y.tolist())):
             gd = teneva.accuracy_on_data(Y1, II, yy)
-            if not abs(gd - wd) <= 256 * EPS * bd + 8 * EPS * wd:
+            if not abs(gd - wd) <= 256 * EPSc * bd + 8 * EPSc * wd:
                 return FAIL(f'accuracy_on_data({name}) {gd} vs {wd}')
-        if kind != 'int':          # e_trunc path (rounding of exactly-zero tensors is C11's business)
+        if kind != 'int' and EPSc == EPS:      # e_trunc path (rounding of exactly-zero tensors is C11's business; float32
+                                               # cores are rounded in float32 - C02's business)
             e = 1e-9
             gd = teneva.accuracy_on_data(Y1, I, y, e_trunc=e)
+            gp = teneva.accuracy_on_data(Y1, I, y, e)                      # the same call written positionally
+            if not gp == gd:
+                return FAIL(f'accuracy_on_data(Y, I, y, e) = {gp!r}, with e_trunc=e {gd!r}')
             slack = 2 * e * float(np.sqrt((A1 ** 2).sum())) / ny + 1e-12 * bd
             if not abs(gd - wd) <= slack:
                 return FAIL(f'accuracy_on_data(e_trunc) {gd} vs {wd} slack {slack:.2e}')
@@ -478,6 +526,8 @@ def accuracy_dense(n, r, seed, kind, order, near, scale=1.0, alias=None):
 # ----------------------------------------------------------------------------- algebra
 
 def _dense_of(Z, n, what):
+    if _CTX['form'] and isinstance(Z, list) and all(isinstance(G, np.ndarray) and G.dtype.kind in 'fiu' for G in Z):
+        Z = _image(Z)               # other input forms: the dtype of the result cores is not part of the property
     msg = gen.wf(Z, n)
     if msg:
         return None, f'{what}: result not a well-formed TT of shape {n}: {msg}'
@@ -485,10 +535,10 @@ def _dense_of(Z, n, what):
 
 
 @clause('C01.add_sub_mul.tensor_tensor', funcs=('act_two.add', 'act_two.sub', 'act_two.mul'))
-def algebra_tt(n, r, seed, kind, order, scale=1.0, scale2=None, alias=None):
+def algebra_tt(n, r, seed, kind, order, scale=1.0, scale2=None, alias=None, form=None):
     """add / sub / mul of two tensors with unequal rank profiles (and unequal magnitudes) act element-wise; inputs
     untouched."""
-    Y1, D1, B1 = _tt_pair(n, r, seed, kind, order, scale, alias)
+    Y1, D1, B1 = _tt_pair(n, r, seed, kind, order, scale, alias, form)
     Y2, D2, B2 = _second(Y1, n, r, seed, kind, ORDERS[(ORDERS.index(order) + 1) % 3], scale if scale2 is None else scale2, alias)
     if _exact(D1) != _exact(D2):                        # one operand scaled, the other exact: compare in floats
         D1, B1, D2, B2 = _tofloat(D1), _tofloat(B1), _tofloat(D2), _tofloat(B2)
@@ -516,10 +566,10 @@ NUMS = [2, -3, 1, -1, 0, 0.5, -1.5, 2.0, 1.0, -1.0, 0.0, 3]
 
 
 @clause('C01.add_sub_mul.number_operands', funcs=('act_two.add', 'act_two.sub', 'act_two.mul'))
-def algebra_num(n, r, seed, kind, order, scale=1.0, alias=None):
+def algebra_num(n, r, seed, kind, order, scale=1.0, alias=None, form=None):
     """tensor (+,-,*) number, number (+,-,*) tensor act element-wise with the number broadcast; number with
     number is plain Python arithmetic."""
-    Y, D, B = _tt_pair(n, r, seed, kind, order, scale, alias)
+    Y, D, B = _tt_pair(n, r, seed, kind, order, scale, alias, form)
     snap = gen.snapshot(Y)
     d = len(n)
     rmax = max(max(G.shape) for G in Y) + 1
@@ -557,10 +607,10 @@ NUMS_FORMS = [1e-20, -1e-20, 1e-16, -1e-16, 3e-16, 1e-12, 1e20, -1e20, 1e-150]
 
 
 @clause('C01.add_sub_mul.number_forms', funcs=('act_two.add', 'act_two.sub', 'act_two.mul'))
-def algebra_num_forms(n, r, seed, kind, order, scale=1.0, alias=None):
+def algebra_num_forms(n, r, seed, kind, order, scale=1.0, alias=None, form=None):
     """Number operands of tiny / huge modulus (on both sides of every magnitude switch of the constant tensor) and
     of type numpy.float64 act element-wise like the plain number."""
-    Y, D, B = _tt_pair(n, r, seed, kind, order, scale, alias)
+    Y, D, B = _tt_pair(n, r, seed, kind, order, scale, alias, form)
     snap = gen.snapshot(Y)
     d = len(n)
     rmax = max(max(G.shape) for G in Y) + 1
@@ -582,9 +632,9 @@ def algebra_num_forms(n, r, seed, kind, order, scale=1.0, alias=None):
 
 
 @clause('C01.outer.dense', funcs=('act_two.outer', 'act_many.outer_many'))
-def outer_dense(n, r, seed, kind, order, n2, scale=1.0, alias=None):
+def outer_dense(n, r, seed, kind, order, n2, scale=1.0, alias=None, form=None):
     """outer(Y1, Y2)[i,j] = Y1[i] Y2[j]; outer_many of 1, 2, 3 tensors; inputs untouched."""
-    Y1, D1, B1 = _tt_pair(n, r, seed, kind, order, scale, alias)
+    Y1, D1, B1 = _tt_pair(n, r, seed, kind, order, scale, alias, form)
     Y2, D2, B2 = _tt_pair(n2, _other_ranks(n2, [1] * (len(n2) + 1), seed) if not alias else [1] * (len(n2) + 1), seed + 1, kind,
                           ORDERS[(ORDERS.index(order) + 1) % 3], scale, alias)
     Y3, D3, B3 = _tt_pair(n[::-1], r[::-1], seed + 2, kind, order, scale, alias)
@@ -638,11 +688,11 @@ def _unnormalised(Yo, W, ltr, exact):
 
 
 @clause('C01.interface.vectors', funcs=('act_one.interface',))
-def interface_vectors(n, r, seed, kind, order, mode, norm, ltr, scale=1.0, alias=None):
+def interface_vectors(n, r, seed, kind, order, mode, norm, ltr, scale=1.0, alias=None, form=None, call='kw'):
     """interface(Y, P, i, norm, ltr): d+1 vectors, the k-th is the (weighted / indexed) total of the sub-train
     on one side of bond k; 'natural' divides by the product of the mode sizes passed, 'linalg' normalises to
     unit length, None leaves the totals.  SKIP when a 'linalg' vector is (numerically) zero."""
-    Y, D, B = _tt_pair(n, r, seed, kind, order, scale, alias)
+    Y, D, B = _tt_pair(n, r, seed, kind, order, scale, alias, form)
     d = len(n)
     exact = kind == 'int' and scale == 1.0
     g = gen.rng('iface', n, r, seed, mode)
@@ -676,12 +726,14 @@ def interface_vectors(n, r, seed, kind, order, mode, norm, ltr, scale=1.0, alias
     else:
         raise ValueError(mode)
     snap = gen.snapshot([Y, P, i_arg])
-    phi = teneva.interface(Y, P=P, i=i_arg, norm=norm, ltr=ltr)
+    phi = teneva.interface(Y, P=P, i=i_arg, norm=norm, ltr=ltr) if call == 'kw' else \
+        gen.call_form(teneva.interface, ('Y', 'P', 'i', 'norm', 'ltr'), [Y, P, i_arg, norm, ltr],
+                      [gen.call_form.REQ, None, None, 'linalg', False], call)
     if gen.snapshot([Y, P, i_arg]) != snap:
         return FAIL('an argument changed')
     if not isinstance(phi, list) or len(phi) != d + 1:
         return FAIL(f'{len(phi)} interface vectors for d = {d}')
-    u, ub = _unnormalised([np.asarray(G) for G in Y], W, ltr, exact)
+    u, ub = _unnormalised(_image(Y) if form else [np.asarray(G) for G in Y], W, ltr, exact)
     rk = [1] + [G.shape[2] for G in Y]
     inner = range(0, d) if not ltr else range(1, d + 1)
     for k in range(d + 1):
@@ -696,7 +748,7 @@ def interface_vectors(n, r, seed, kind, order, mode, norm, ltr, scale=1.0, alias
             msg = _agree(v, u[k], ub[k], c=64.0 * d, what=f'phi[{k}]')
         elif norm.startswith('n'):
             N = int(np.prod(n[k:] if not ltr else n[:k]))
-            if exact and (N & (N - 1)) == 0 and _maxabs(ub[k]) < LIM:
+            if exact and (N & (N - 1)) == 0 and _maxabs(ub[k]) < _CTX['lim']:
                 msg = None if np.array_equal(v, u[k].astype(float) / N) else f'phi[{k}] natural: {v} != {u[k]}/{N}'
             else:
                 msg = _agree(v, u[k].astype(float) / N, ub[k].astype(float) / N, c=64.0 * d, what=f'phi[{k}] natural')
@@ -706,7 +758,7 @@ def interface_vectors(n, r, seed, kind, order, mode, norm, ltr, scale=1.0, alias
             if nu <= 1e-3 * nb or nu == 0:
                 return SKIP(f'interface vector {k} is zero or ill-conditioned (|u| = {nu:.2e}, scale {nb:.2e})')
             cond = nb / nu
-            msg = None if np.all(np.abs(v - uf / nu) <= 256.0 * d * EPS * cond * cond * (k + 1 + d)) else \
+            msg = None if np.all(np.abs(v - uf / nu) <= 256.0 * d * _CTX['eps'] * cond * cond * (k + 1 + d)) else \
                 f'phi[{k}] linalg: {v} vs {uf / nu}'
         if msg:
             return FAIL(f'mode={mode} norm={norm} ltr={ltr}: {msg}')
@@ -714,13 +766,13 @@ def interface_vectors(n, r, seed, kind, order, mode, norm, ltr, scale=1.0, alias
 
 
 @clause('C01.get_and_grad.exact', funcs=('act_one.get_and_grad',))
-def get_and_grad_exact(n, r, seed, kind, order, scale=1.0, alias=None):
+def get_and_grad_exact(n, r, seed, kind, order, scale=1.0, alias=None, form=None):
     """value = val(Y, i); the gradient tensor has the core shapes, its slice at i_k is the derivative of val
     w.r.t. the core entries (= value of the train with core k replaced by a unit core), zero elsewhere."""
-    Y, D, B = _tt_pair(n, r, seed, kind, order, scale, alias)
+    Y, D, B = _tt_pair(n, r, seed, kind, order, scale, alias, form)
     d = len(n)
     exact = kind == 'int' and scale == 1.0
-    Yo = _obj(Y) if exact else [np.asarray(G) for G in Y]
+    Yo = _obj(Y) if exact else (_image(Y) if form else [np.asarray(G) for G in Y])
     Ya = [np.abs(G) for G in Yo]
     I = gen.all_indices(n)
     g = gen.rng('gag', n, r, seed)
@@ -728,7 +780,7 @@ def get_and_grad_exact(n, r, seed, kind, order, scale=1.0, alias=None):
     snap = gen.snapshot(Y)
     for s in sel:
         i = I[s]
-        for i_arg in (i.tolist(), i):
+        for i_arg in (i.tolist(), i) + ((tuple(i.tolist()), i.astype(np.int32), [np.int64(x) for x in i]) if form else ()):
             val, grad = teneva.get_and_grad(Y, i_arg)
             if np.ndim(val) != 0:
                 return FAIL('value is not a scalar')
@@ -985,10 +1037,12 @@ def algebra_many_modes(d, nk, seed):
 # ----------------------------------------------------------------------------- structure
 
 @clause('C01.props.shape_ranks_size_erank', funcs=('props.shape', 'props.ranks', 'props.size', 'props.erank'))
-def props_struct(n, r, seed, kind, order, alias=None):
+def props_struct(n, r, seed, kind, order, alias=None, form=None):
     """shape = mode sizes, ranks = (1, r_1, ..., r_{d-1}, 1), size = number of core entries, erank = the
     non-negative root of a r^2 + b r = sum_k n_k r_{k-1} r_k (d >= 3), r_1 for d = 2."""
     Y = gen.tt(n, r, seed, kind, order=order) if not alias else gen.tt_aliased(n, r, seed, kind, order=order, which=alias)
+    if form:
+        Y = _tt_pair(n, r, seed, kind, order, 1.0, alias, form)[0]
     d = len(n)
     sh, rk, sz = teneva.shape(Y), teneva.ranks(Y), teneva.size(Y)
     if not isinstance(sh, np.ndarray) or sh.dtype.kind not in 'iu' or sh.shape != (d,) or sh.tolist() != list(n):
@@ -1012,10 +1066,12 @@ def props_struct(n, r, seed, kind, order, alias=None):
 
 
 @clause('C01.copy.independent', funcs=('act_one.copy',))
-def copy_independent(n, r, seed, kind, order, alias=None):
+def copy_independent(n, r, seed, kind, order, alias=None, form=None):
     """copy(Y) denotes the same tensor core by core and shares nothing; numbers / None are returned as they
     are, arrays are copied."""
     Y = gen.tt(n, r, seed, kind, order=order) if not alias else gen.tt_aliased(n, r, seed, kind, order=order, which=alias)
+    if form:
+        Y = _tt_pair(n, r, seed, kind, order, 1.0, alias, form)[0]
     snap = gen.snapshot(Y)
     Z = teneva.copy(Y)
     if not isinstance(Z, list) or Z is Y or len(Z) != len(Y):
@@ -1026,7 +1082,7 @@ def copy_independent(n, r, seed, kind, order, alias=None):
     if gen.shares(Y, Z):
         return FAIL('copy shares memory with the input')
     for H in Z:
-        H += 1.0
+        H += 1
     if gen.snapshot(Y) != snap:
         return FAIL('writing into the copy changed the input')
     for v in (3, -2.5, 0, None):
@@ -1050,7 +1106,7 @@ class _Node:
 
     @property
     def num(self):
-        return not isinstance(self.val, list)
+        return not isinstance(self.val, (list, tuple))
 
 
 def _tofloat(D):
@@ -1061,6 +1117,12 @@ def _tofloat(D):
 
 def _leaf(g, n, kind, alias=False):
     d = len(n)
+    if alias in ('any64', 'any32'):     # a leaf in another input form (first core float: every operation is defined)
+        fs = ('mix_fi', 'ro', 'ro_view', 'tuple') + (('f32', 'mix_f32a', 'mix_f32b', 'tuple_f32_ro') if alias == 'any32' else ())
+        r = [1] + [int(x) for x in g.integers(1, 4, size=d - 1)] + [1]
+        f = fs[int(g.integers(0, len(fs)))]
+        Y, D, B = _tt_pair(n, r, int(g.integers(1 << 30)), kind, ORDERS[int(g.integers(0, 3))], 1.0, None, f)
+        return _Node(Y, D, B, max(r), f'F{r}{f}')
     r = [1] + [int(x) for x in g.integers(1, 3, size=d - 1)] + [1]
     if g.random() < 0.15:
         r = [1] + [3] * (d - 1) + [1]
@@ -1139,25 +1201,163 @@ def _tree(g, n, depth, kind, tensor, alias=False):
 
 
 @clause('C01.tree.random', funcs=('act_two.add', 'act_two.sub', 'act_two.mul', 'act_two.outer', 'act_one.copy'))
-def tree_random(n, seed, depth, kind, tensor, alias=False):
+def tree_random(n, seed, depth, kind, tensor, alias=False, form=None):
     """A random expression tree over add / sub / mul / outer / copy / number operands denotes the same tensor
     as the tree evaluated on dense arrays (exact == while all partial sums are integers below 2^53).  alias: the leaves
     are tensors whose core lists repeat array objects, and numbers occur as operands next to them (tensor=False)."""
     g = gen.rng('tree', n, seed, depth, kind)
-    t = _tree(g, list(n), depth, kind, tensor, alias)
+    t = _tree(g, list(n), depth, kind, tensor, form or alias)
     if t.num:
         want = t.D
         if isinstance(t.val, (list, np.ndarray)) or not (t.val == want or abs(t.val - want) <= 8 * EPS * abs(t.B)):
             return FAIL(f'{t.text} = {t.val!r}, want {want!r}')
         return PASS
-    msg = gen.wf(t.val, n)
+    val = _image(t.val) if form and isinstance(t.val, (list, tuple)) else t.val      # (a single leaf may be a tuple)
+    msg = gen.wf(val, n)
     if msg:
         return FAIL(f'{t.text}: result not well-formed: {msg}')
-    rmax = max(max(G.shape) for G in t.val)
-    A = gen.dense(t.val)
+    rmax = max(max(G.shape) for G in val)
+    A = gen.dense(val)
     msg = _agree(A, t.D, t.B, c=16.0 * (len(n) * rmax + depth + 4), what=t.text)
     return FAIL(msg) if msg else PASS
 
+
+
+# ----------------------------------------------------------------------------- other input forms of the core list
+
+_FORM_TARGETS = {}
+
+
+@clause('C01.forms.std', funcs=('act_one.get', 'act_one.get_many', 'transformation.full', 'act_one.sum', 'act_one.mean',
+                                'act_two.mul_scalar', 'act_one.norm', 'act_two.accuracy', 'data.accuracy_on_data', 'act_two.add',
+                                'act_two.sub', 'act_two.mul', 'act_two.outer', 'act_many.outer_many', 'act_one.interface',
+                                'act_one.get_and_grad', 'props.shape', 'props.ranks', 'props.size', 'props.erank', 'act_one.copy'))
+def forms_std(target, form, params):
+    """The reference checks of the clause `target` (get / full / sum_mean / dot_norm / accuracy / algebra_tt / algebra_num /
+    number_forms / outer / interface / get_and_grad / props / copy / tree) with the (first) tensor argument given in another
+    INPUT FORM (`_as_form`): cores of dtype float32 / int64 / int32 / mixed between the cores, read-only cores and
+    read-only non-contiguous views, the core list as a tuple.  The reference is the float64 image of what is passed; the
+    comparison regime is exact `==` for integer-valued cores below 2^53 (2^24 when float32 cores take part, because the
+    unchanged library then evaluates in float32) and c * eps (eps32) * sum|products| otherwise."""
+    f32 = form in ('f32', 'mix_f32a', 'mix_f32b', 'tuple_f32_ro', 'any32')
+    _CTX.update(eps=EPS32 if f32 else EPS, lim=2 ** 24 if f32 else LIM, form=form)
+    try:
+        return _FORM_TARGETS[target](form=form, **params)
+    finally:
+        _CTX.update(eps=EPS, lim=LIM, form=None)
+
+
+@clause('C01.forms.mixed_operands', funcs=('act_two.add', 'act_two.sub', 'act_two.mul', 'act_two.mul_scalar', 'act_two.outer',
+                                           'act_two.accuracy', 'act_many.outer_many'))
+def forms_mixed_operands(n, r, seed, form, order):
+    """Binary operations of a tensor X in another input form (integer-valued cores: float32 / int64 / int32 / mixed /
+    read-only / tuple) with a float64 tensor Y2 of Gaussian cores and with non-integer numbers, in float64 accuracy: the
+    result of add / sub / mul / outer / mul_scalar / accuracy is the one of the float64 images of the operands (every such
+    operation of the unchanged library promotes to float64; a result allocated in the dtype or the memory of ONE operand
+    loses the other one).  Forms whose first core has an integer dtype leave out the calls of
+    `C01.forms.int_first_core_inplace`."""
+    X, D1, B1 = _tt_pair(n, r, seed, 'int', order, 1.0, None, form)
+    Y2 = gen.tt(n, _other_ranks(n, r, seed), seed + 1, 'gauss', order=ORDERS[(ORDERS.index(order) + 1) % 3])
+    D1, B1 = _tofloat(D1), _tofloat(B1)
+    D2, B2 = gen.dense(Y2), gen.absdense(Y2)
+    snap = gen.snapshot([X, Y2])
+    d = len(n)
+    intfirst = form in INT_FIRST
+    rmax = max(max(G.shape) for G in X) * max(max(G.shape) for G in Y2)
+    c = 16.0 * d * max(4, rmax)
+    mo = np.multiply.outer
+    _CTX.update(form=form)
+    try:
+        table = [('add(X,Y2)', lambda: teneva.add(X, Y2), D1 + D2, B1 + B2, n), ('add(Y2,X)', lambda: teneva.add(Y2, X), D1 + D2, B1 + B2, n),
+                 ('add(Y1=X,Y2=Y2)', lambda: teneva.add(Y1=X, Y2=Y2), D1 + D2, B1 + B2, n),
+                 ('sub(X,Y2)', lambda: teneva.sub(X, Y2), D1 - D2, B1 + B2, n), ('sub(Y2=Y2,Y1=X)', lambda: teneva.sub(Y2=Y2, Y1=X), D1 - D2, B1 + B2, n),
+                 ('mul(X,Y2)', lambda: teneva.mul(X, Y2), D1 * D2, B1 * B2, n), ('mul(Y2,X)', lambda: teneva.mul(Y2, X), D1 * D2, B1 * B2, n),
+                 ('outer(X,Y2)', lambda: teneva.outer(X, Y2), mo(D1, D2), mo(B1, B2), n + n),
+                 ('outer(Y2,X)', lambda: teneva.outer(Y2, X), mo(D2, D1), mo(B2, B1), n + n),
+                 ('outer_many((Y2,X)) [tuple]', lambda: teneva.outer_many((Y2, X)), mo(D2, D1), mo(B2, B1), n + n),
+                 ('add(X,2.5)', lambda: teneva.add(X, 2.5), D1 + 2.5, B1 + 2.5, n), ('add(-0.3,X)', lambda: teneva.add(-0.3, X), D1 - 0.3, B1 + 0.3, n),
+                 ('sub(X,1.7)', lambda: teneva.sub(X, 1.7), D1 - 1.7, B1 + 1.7, n), ('add(X,True)', lambda: teneva.add(X, True), D1 + 1, B1 + 1, n),
+                 ('mul(X,3)', lambda: teneva.mul(X, 3), D1 * 3, B1 * 3, n), ('mul(-2,X)', lambda: teneva.mul(-2, X), D1 * -2, B1 * 2, n)]
+        if not intfirst:
+            table += [('sub(Y2,X)', lambda: teneva.sub(Y2, X), D2 - D1, B1 + B2, n), ('sub(0.7,X)', lambda: teneva.sub(0.7, X), 0.7 - D1, B1 + 0.7, n),
+                      ('mul(X,0.3)', lambda: teneva.mul(X, 0.3), D1 * 0.3, B1 * 0.3, n), ('mul(-1.7,X)', lambda: teneva.mul(-1.7, X), D1 * -1.7, B1 * 1.7, n)]
+        f32first = np.asarray(X[0]).dtype == np.float32
+        for name, fn, W, WB, shp in table:
+            if f32first and name in ('mul(X,0.3)', 'mul(-1.7,X)'):
+                continue                    # the unchanged library multiplies the float32 core in place: float32 rounding
+            A, msg = _dense_of(fn(), shp, name)
+            msg = msg or _agree(A, W, WB, c=c, what=name)
+            if msg:
+                return FAIL(f'form {form}: {msg}')
+            if gen.snapshot([X, Y2]) != snap:
+                return FAIL(f'form {form}: {name}: an operand changed')
+        want, bnd = float((D1 * D2).sum()), float((B1 * B2).sum())
+        for name, got in (('mul_scalar(X,Y2)', teneva.mul_scalar(X, Y2)), ('mul_scalar(Y2,X)', teneva.mul_scalar(Y2, X)),
+                          ('mul_scalar(Y1=X,Y2=Y2,use_stab=False)', teneva.mul_scalar(Y1=X, Y2=Y2, use_stab=False))):
+            msg = _agree(got, want, bnd, c=256, what=name)
+            if msg:
+                return FAIL(f'form {form}: {msg}')
+        v, p = teneva.mul_scalar(X, Y2, use_stab=True)
+        if isinstance(p, bool) or not isinstance(p, (int, np.integer)) or not abs(math.ldexp(float(v), int(p)) - want) <= 256 * d * EPS * bnd:
+            return FAIL(f'form {form}: mul_scalar(X, Y2, use_stab=True) = ({v!r}, {p!r}), want {want!r}')
+        S1, S2 = float(((D1 - D2) ** 2).sum()), float((D2 ** 2).sum())
+        T1, T2 = float(((B1 + B2) ** 2).sum()), float((B2 ** 2).sum())
+        if S2 > 1e-6 * T2:
+            got = teneva.accuracy(X, Y2)
+            tol = 1024 * EPS * (T1 + T2 * S1 / S2) + 64 * EPS * S1
+            if not (np.isfinite(got) and got >= 0 and abs(float(got) ** 2 * S2 - S1) <= tol):
+                return FAIL(f'form {form}: accuracy(X, Y2) = {got!r}, want {math.sqrt(S1 / S2)!r}')
+        if gen.snapshot([X, Y2]) != snap:
+            return FAIL(f'form {form}: an operand changed')
+    finally:
+        _CTX.update(form=None)
+    return PASS
+
+
+# DOUBTFUL (disabled: replay_only, no case is generated).  A TT-tensor whose FIRST core has an integer dtype (a list of
+# 3-D numpy arrays holding finite values, e.g. built with np.array([[[1], [2]]])) makes sub(Y, X), sub(number, X),
+# mul(non-integer number, X), mul(X, 2.0) and accuracy(Y, X) / accuracy(X, X) raise numpy's UFuncTypeError on the unchanged
+# library: act_two.sub / act_two.mul scale the COPY of the first core in place (`Y2[0] *= -1.`, `Y[0] *= Y1`), which numpy
+# refuses for an integer array and a float factor.  The property quantifies over "any finite core values", the docstrings
+# only say "Y (list): TT-tensor"; whether integer dtypes are inside is not decidable from the documentation.
+@clause('C01.forms.int_first_core_inplace', funcs=('act_two.sub', 'act_two.mul', 'act_two.accuracy'), replay_only=True)
+def forms_int_first_core(n, r, seed, form, order):
+    """sub(Y2, X), sub(number, X), mul(float, X), accuracy(Y2, X), accuracy(X, X) for X with an integer-dtype first core
+    act on the float64 image of X (observation outside the documented input forms; see the comment above)."""
+    X, D1, B1 = _tt_pair(n, r, seed, 'int', order, 1.0, None, form)
+    Y2 = gen.tt(n, _other_ranks(n, r, seed), seed + 1, 'gauss', order=order)
+    D1, B1 = _tofloat(D1), _tofloat(B1)
+    D2, B2 = gen.dense(Y2), gen.absdense(Y2)
+    c = 16.0 * len(n) * max(4, max(max(G.shape) for G in X) * max(max(G.shape) for G in Y2))
+    _CTX.update(form=form)
+    try:
+        for name, fn, W, WB in (('sub(Y2,X)', lambda: teneva.sub(Y2, X), D2 - D1, B1 + B2), ('sub(0.7,X)', lambda: teneva.sub(0.7, X), 0.7 - D1, B1 + 0.7),
+                                ('sub(2,X)', lambda: teneva.sub(2, X), 2 - D1, B1 + 2), ('mul(X,0.5)', lambda: teneva.mul(X, 0.5), D1 * 0.5, B1 * 0.5),
+                                ('mul(2.0,X)', lambda: teneva.mul(2.0, X), D1 * 2, B1 * 2)):
+            try:
+                Z = fn()
+            except Exception as e:
+                return FAIL(f'form {form}: {name} raises {type(e).__name__}: {e}')
+            A, msg = _dense_of(Z, n, name)
+            msg = msg or _agree(A, W, WB, c=c, what=name)
+            if msg:
+                return FAIL(f'form {form}: {msg}')
+        try:
+            a0, a1 = teneva.accuracy(X, list(X)), teneva.accuracy(Y2, X)
+        except Exception as e:
+            return FAIL(f'form {form}: accuracy raises {type(e).__name__}: {e}')
+        S1, S2 = float(((D1 - D2) ** 2).sum()), float((D1 ** 2).sum())
+        if S2 > 0 and not (a0 == 0 and abs(float(a1) ** 2 * S2 - S1) <= 1e-9 * (S1 + S2)):
+            return FAIL(f'form {form}: accuracy(X, X) = {a0!r}, accuracy(Y2, X) = {a1!r} vs {math.sqrt(S1 / S2)!r}')
+    finally:
+        _CTX.update(form=None)
+    return PASS
+
+
+_FORM_TARGETS.update(get=get_all, full=full_dense, sum_mean=sum_mean, dot_norm=dot_norm, accuracy=accuracy_dense,
+                     algebra_tt=algebra_tt, algebra_num=algebra_num, number_forms=algebra_num_forms, outer=outer_dense,
+                     interface=interface_vectors, get_and_grad=get_and_grad_exact, props=props_struct, copy=copy_independent,
+                     tree=tree_random)
 
 # ----------------------------------------------------------------------------- case list
 
@@ -1294,6 +1494,50 @@ def cases(tier, seed):
                     yield 'C01.tree.random', dict(n=n, seed=5000 + s, depth=depth, kind=kind, tensor=True, alias=True)
             for s in range(6 if big else 3):
                 yield 'C01.tree.random', dict(n=n, seed=5000 + s, depth=2, kind=kind, tensor=False, alias=True)
+    # other input forms of the core list (dtypes float32 / int64 / int32 / mixed, read-only, views, tuple): the standard
+    # reference checks through `C01.forms.std`, the float64-accuracy binary operations, positional call forms
+    fcfg = [([3, 2], [1, 2, 1]), ([2, 3, 2], [1, 2, 3, 1]), ([3, 2, 3, 2], [1, 2, 3, 2, 1]), ([1, 3, 1], [1, 1, 1, 1]),
+            ([2, 2, 2], [1, 4, 4, 1]), ([4, 1, 2], [1, 2, 2, 1])]
+    if big:
+        fcfg += [([2, 2, 2, 2, 2], [1, 2, 2, 2, 2, 1]), ([3, 3], [1, 1, 1]), ([2, 4, 3], [1, 3, 1, 1]), ([1, 1], [1, 1, 1])]
+    always = ('get', 'full', 'sum_mean', 'dot_norm', 'outer', 'get_and_grad', 'props', 'copy')
+    for j, (n, r) in enumerate(fcfg):
+        for fi, form in enumerate(FORMS):
+            if not big and (fi + j) % 2 and j >= 2:
+                continue
+            intform = form in ('i64', 'i32')
+            for kind in (('int',) if (intform or not big and (fi + j) % 3) else ('int', 'gauss')):
+                base = dict(n=n, r=r, seed=6000 + j, kind=kind, order=ORDERS[(j + fi) % 3])
+                targets = list(always)
+                if form not in INT_FIRST:
+                    targets += ['algebra_tt', 'algebra_num']
+                    if form not in ('f32', 'mix_f32a', 'tuple_f32_ro'):      # a float32 first core times 1e-150 underflows
+                        targets.append('number_forms')
+                for t in targets:
+                    yield 'C01.forms.std', dict(target=t, form=form, params=dict(base, n2=[2, 3]) if t == 'outer' else dict(base))
+                for near in (('other',) if form in INT_FIRST else ('other', 'copy', 'scaled')):
+                    yield 'C01.forms.std', dict(target='accuracy', form=form, params=dict(base, near=near))
+                for mode, norm, ltr in (('plain', None, False), ('P', 'natural', True), ('i', 'linalg', False), ('iP', None, True),
+                                        ('iarr', 'natural', False), ('Parr', 'linalg', True)):
+                    yield 'C01.forms.std', dict(target='interface', form=form, params=dict(base, mode=mode, norm=norm, ltr=ltr))
+            yield 'C01.forms.mixed_operands', dict(n=n, r=r, seed=6100 + j, form=form, order=ORDERS[(j + fi) % 3])
+    for j, (n, r) in enumerate(fcfg[:3] if not big else fcfg):          # positional / mixed call forms of interface
+        for kind in ('int', 'gauss'):
+            for ci, call in enumerate(('pos', 'mix:2', 'mix:3', 'min', 'kwmin')):
+                for mode, norm, ltr in ((('plain', None, False), ('P', 'natural', True), ('i', 'linalg', False), ('iP', None, True),
+                                         ('P', 'linalg', False), ('plain', 'linalg', True)) if big else
+                                        (('iP', None, True), ('P', ('natural', 'linalg')[(ci + j) % 2], bool(ci % 2)), ('i', 'linalg', False),
+                                         ('plain', 'linalg', True))):
+                    yield 'C01.interface.vectors', dict(n=n, r=r, seed=6200 + j, kind=kind, order=ORDERS[j % 3], mode=mode, norm=norm,
+                                                        ltr=ltr, call=call)
+    for n in [[2, 3], [3, 2, 2], [2, 2, 2, 2], [1, 3, 1]] + ([[2, 3, 2, 2, 2]] if big else []):
+        for kind in ('int', 'gauss'):
+            for form in ('any64', 'any32'):
+                for depth in ((1, 2, 3, 4) if big else (1, 2, 3)):
+                    for s_ in range(20 if big else 5):
+                        yield 'C01.forms.std', dict(target='tree', form=form, params=dict(n=n, seed=7000 + s_, depth=depth, kind=kind, tensor=True))
+                for s_ in range(4 if big else 2):
+                    yield 'C01.forms.std', dict(target='tree', form=form, params=dict(n=n, seed=7000 + s_, depth=2, kind=kind, tensor=False))
     # expression trees
     roots = [[2, 3], [3, 1], [2, 1, 3], [1, 1, 1], [2, 2, 2], [3, 2, 2, 2], [1, 2, 2, 1], [2, 3, 1, 2]]
     if big:
